@@ -777,6 +777,160 @@ def translate_learn(repo, gen, write):
     return err
 
 
+
+# =====================================================================================================================
+# SupervisedOPF.prune  ->  Gen/PruneImp.lean
+# =====================================================================================================================
+class PruneFn(LearnFn):
+    CONSTS = ["IRRELEVANT"]
+
+    def block(self, stmts, env, params, ind, rest_after=(), in_loop=None):
+        lines = []
+        rest = []
+        for pos, st in enumerate(stmts):
+            s_ = src(st)
+            handled = True
+            if isinstance(st, ast.Assign) and len(st.targets) == 1 and isinstance(st.targets[0], ast.Tuple) and \
+                    isinstance(st.value, ast.Tuple) and all(isinstance(v, ast.List) and not v.elts for v in st.value.elts) and \
+                    all(isinstance(u, ast.Name) for u in st.targets[0].elts):
+                for u in st.targets[0].elts:
+                    k = self.list_kinds.get(u.id)
+                    if k is None:
+                        self.fail(st, f"list `{u.id}` is never appended to")
+                    env[u.id] = k
+                    lines.append(f"let {u.id} : {self.ty(k)} := #[]")
+            elif isinstance(st, ast.Expr) and isinstance(st.value, ast.Call) and isinstance(st.value.func, ast.Attribute) and \
+                    st.value.func.attr == "append" and isinstance(st.value.func.value, ast.Name) and len(st.value.args) == 1:
+                lst = st.value.func.value.id
+                a = st.value.args[0]
+                if env.get(lst) == "rows" and isinstance(a, ast.Subscript) and isinstance(a.value, ast.Name) and env.get(a.value.id) == "rows" \
+                        and isinstance(a.slice, ast.Tuple) and len(a.slice.elts) == 2 and src(a.slice.elts[1]) == ":":
+                    i = self.expr(a.slice.elts[0], lines, env)
+                    t = self.fresh()
+                    lines += [f"let {t} ← Py.idx {a.value.id} {i}", f"let {lst} := {lst}.push {t}"]
+                elif env.get(lst) == "arr" and isinstance(a, ast.Subscript) and isinstance(a.value, ast.Name) and env.get(a.value.id) == "arr":
+                    i = self.expr(a.slice, lines, env)
+                    t = self.fresh()
+                    lines += [f"let {t} ← Py.idx {a.value.id} {i}", f"let {lst} := {lst}.push {t}"]
+                else:
+                    self.fail(st, f"append `{s_}`")
+            elif isinstance(st, ast.Assign) and len(st.targets) == 1 and isinstance(st.targets[0], ast.Name) and \
+                    isinstance(st.value, ast.Call) and src(st.value.func) == "np.asarray" and len(st.value.args) == 1 and \
+                    isinstance(st.value.args[0], ast.Name) and env.get(st.value.args[0].id) in ("rows", "arr"):
+                nm, srcv = st.targets[0].id, st.value.args[0].id
+                if nm in env and env[nm] != env[srcv]:
+                    self.fail(st, "array re-bound with another kind")
+                env[nm] = env[srcv]
+                lines.append(f"let {nm} := {srcv}")
+            elif s_ == "self.predict(X_val)" and env.get("X_val") == "rows":
+                lines.append("let (s, _) ← ops.predict s X_val")
+            elif isinstance(st, ast.Assign) and len(st.targets) == 1 and isinstance(st.targets[0], ast.Name) and \
+                    src(st.value) == "self.subgraph.n_nodes":
+                self.bind(st.targets[0].id, "int", "(ops.n_nodes s)", lines, env)
+            elif isinstance(st, ast.Assign) and len(st.targets) == 1 and isinstance(st.targets[0], ast.Name) and \
+                    isinstance(st.value, ast.BinOp) and isinstance(st.value.op, ast.Sub) and isinstance(st.value.right, ast.BinOp) and \
+                    isinstance(st.value.right.op, ast.Div) and all(isinstance(x, ast.Name) and env.get(x.id) == "int"
+                                                                   for x in (st.value.right.left, st.value.right.right)):
+                # `<float> = 1 - a / b` on two ints: only logged; what matters is the ZeroDivisionError
+                d = st.value.right.right.id
+                lines.append(f"let _z : Unit ← (if {d} = 0 then none else pure ())")
+                env[st.targets[0].id] = "ghostfloat"
+            elif isinstance(st, ast.For) and isinstance(st.target, ast.Tuple) and len(st.target.elts) == 2 and \
+                    src(st.iter) == "enumerate(self.subgraph.nodes)" and not st.orelse:
+                jv, nv = (u.id for u in st.target.elts)
+                carried = [v for v in self.assigned_lists(st.body) if v in env]
+                tup = self.tuple_of(carried)
+                e1 = dict(env)
+                e1[jv] = "int"
+                e1[nv] = "node"
+                body = self.block(st.body, e1, params, ind, (), None)
+                lines.append(f"let {tup} ← Py.forEnum (ops.relevants s) (fun {jv} {nv} {tup} => do")
+                lines += ["    " + ln for ln in body] + [f"    pure {tup}) {tup}"]
+            elif isinstance(st, ast.For) and isinstance(st.target, ast.Name) and src(st.iter) == "range(n_iterations)" and not st.orelse:
+                tv = st.target.id
+                carried = [v for v in self.assigned_lists(st.body) if v in env and v not in ("X_temp", "Y_temp")]
+                tup = self.tuple_of(carried)
+                e1 = dict(env)
+                e1[tv] = "int"
+                body = self.block(st.body, e1, params, ind, (), None)
+                lines.append(f"let {tup} ← Py.forRange n_iterations (fun {tv} {tup} => do")
+                lines += ["    " + ln for ln in body] + [f"    pure {tup}) {tup}"]
+            elif isinstance(st, ast.If) and not st.orelse and isinstance(st.test, ast.Compare) and \
+                    src(st.test.comparators[0]) == "c.IRRELEVANT" and isinstance(st.test.ops[0], ast.NotEq) and \
+                    isinstance(st.test.left, ast.Attribute) and st.test.left.attr == "relevant" and \
+                    isinstance(st.test.left.value, ast.Name) and env.get(st.test.left.value.id) == "node":
+                carried = [v for v in self.assigned_lists(st.body) if v in env]
+                tup = self.tuple_of(carried)
+                e1 = dict(env)
+                body = self.block(st.body, e1, params, ind, (), None)
+                lines.append(f"let {tup} ← (if decide ({st.test.left.value.id} ≠ IRRELEVANT) then (do")
+                lines += ["    " + ln for ln in body] + [f"    pure {tup}) else pure {tup})"]
+            else:
+                handled = False
+            if not handled:
+                lines += super().block([st], env, params, ind, list(stmts[pos + 1:]) + list(rest_after), in_loop)
+        return lines
+
+    def assigned_lists(self, stmts):
+        out = list(self.assigned(stmts))
+        for st in stmts:
+            for n in ast.walk(st):
+                if isinstance(n, ast.Call) and isinstance(n.func, ast.Attribute) and n.func.attr == "append" and \
+                        isinstance(n.func.value, ast.Name) and n.func.value.id not in out:
+                    out.append(n.func.value.id)
+        return out
+
+    def logger_reads(self, st, lines, env):
+        for a in st.value.args[1:]:
+            for n in ast.walk(a):
+                if isinstance(n, ast.Name) and n.id not in env:
+                    self.fail(st, f"logging statement reads `{n.id}`, not a local")
+
+    def prune(self):
+        fn = None
+        for n in self.cls.body:
+            if isinstance(n, ast.FunctionDef) and n.name == "prune":
+                fn = n
+        if fn is None:
+            raise Untranslatable(f"{self.rel}: method prune not found")
+        params = [a.arg for a in fn.args.args][1:]
+        if params != ["X_train", "Y_train", "X_val", "Y_val", "n_iterations"]:
+            self.fail(fn, "parameters of prune")
+        env = {"X_train": "rows", "Y_train": "arr", "X_val": "rows", "Y_val": "arr", "n_iterations": "int"}
+        self.float_locals = {"acc"}
+        self.kinds_hint = {}
+        self.read_anywhere = set()
+        self.list_kinds = {}
+        for n in ast.walk(fn):
+            if isinstance(n, ast.Call) and isinstance(n.func, ast.Attribute) and n.func.attr == "append" and \
+                    isinstance(n.func.value, ast.Name) and len(n.args) == 1 and isinstance(n.args[0], ast.Subscript) and \
+                    isinstance(n.args[0].value, ast.Name) and n.args[0].value.id in env:
+                self.list_kinds[n.func.value.id] = env[n.args[0].value.id]
+        body = self.block(fn.body, env, params, 1, ())
+        out = [f"/-- `SupervisedOPF.prune` ({self.rel}:{fn.lineno}); returns the object and the training set it ends with -/",
+               "def prune {σ β : Type} (ops : PruneOps σ β) (IRRELEVANT : Int) (s : σ) (rng : Unit)",
+               "    (X_train : Array β) (Y_train : Array Int) (X_val : Array β) (Y_val : Array Int) (n_iterations : Int) :",
+               "    Option (σ × Array β × Array Int) := do"]
+        out += ["  " + ln for ln in body] + ["  pure (s, X_train, Y_train)", ""]
+        return out
+
+
+def translate_prune(repo, gen, write):
+    rel = "opfython/models/supervised.py"
+    head = [f"/- GENERATED by tools/translate_sel.py from /repo/{rel} — do not edit. -/",
+            "import OpfVerif.Model.PruneOps", "set_option linter.unusedVariables false",
+            "namespace Opf.Gen.PruneImp", "open Opf", ""]
+    try:
+        t = PruneFn(os.path.join(repo, rel), rel, "SupervisedOPF")
+        body = t.prune()
+        err = None
+    except Untranslatable as ex:
+        body = ['theorem untranslatable : False := by', '  exact (show False from nomatch (⟨⟩ : Unit))  -- ' + str(ex)]
+        err = str(ex)
+    write(os.path.join(gen, "PruneImp.lean"), "\n".join(head + body + ["end Opf.Gen.PruneImp"]) + "\n")
+    return err
+
+
 if __name__ == "__main__":
     import sys
 
@@ -787,3 +941,5 @@ if __name__ == "__main__":
     print(open("/tmp/gen_try/SelImp.lean").read())
     print(translate_learn(sys.argv[1] if len(sys.argv) > 1 else "/repo", "/tmp/gen_try", w))
     print(open("/tmp/gen_try/LearnImp.lean").read())
+    print(translate_prune(sys.argv[1] if len(sys.argv) > 1 else "/repo", "/tmp/gen_try", w))
+    print(open("/tmp/gen_try/PruneImp.lean").read())
